@@ -338,6 +338,13 @@ func (e *Exec) strConcat(x, y *StrV) Value {
 	if y.len.IsConst() && y.len.val == 0 {
 		return x
 	}
+	if !x.len.IsConst() || !y.len.IsConst() {
+		// concatenation with a string of symbolic length (opaque formatted text): the result is
+		// opaque too; its parts are recorded for dependence analysis
+		r := e.opaqueString("concat", 96, &fmtRecord{format: "%s%s", args: []Value{x, y}})
+		e.strPieces[r.arr] = []*StrV{x, y}
+		return r
+	}
 	xs, ys := e.strBytes(x), e.strBytes(y)
 	return e.mkString(append(append([]*Term{}, xs...), ys...))
 }
